@@ -338,6 +338,7 @@ def run_worker(I, N, limit, only=None):
             else:
                 res["checks"] = {}
                 caught = None
+                hung = None
                 for p in m["props"]:
                     rc, out = sh(["./check", p, "--tier", "quick"], cwd=verif, env=env, timeout=1800)
                     viol = [l for l in out.splitlines() if l.startswith("VIOLATION")]
@@ -354,11 +355,16 @@ def run_worker(I, N, limit, only=None):
                         caught = p
                         break
                     if rc not in (0, 1):
-                        res["checks"][p]["note"] = "framework error"
+                        res["checks"][p]["note"] = "framework error or time-out (rc=%d)" % rc
+                        hung = p
                 if caught:
                     res["verdict"] = "caught"
                     res["caught_by"] = caught
                     res["concrete"] = "no-failing-input-found" not in res["checks"][caught]["line"]
+                elif hung:
+                    # a check that does not come back is neither a catch nor a pass: the mutant makes the harness hang
+                    res["verdict"] = "check-hung"
+                    res["caught_by"] = hung
                 else:
                     bad, log = run_suite(repo, env)
                     if bad:
